@@ -255,12 +255,12 @@ def exchange(w, lan, dev, client, req):
     if t == 2:
         return ('simple-ack', r["service"])
     if t == 3:
-        return ('complex-ack', r["service"], bytes(r["payload"]))
+        return ('complex-ack', r["service"], R.octets(r["payload"]))
     if t == 5:
         try:
-            cls, code = R.parse_error(bytes(r["payload"]))
+            cls, code = R.parse_error(R.octets(r["payload"]))
         except ValueError:
-            return ('malformed-error', bytes(r["payload"]))
+            return ('malformed-error', R.octets(r["payload"]))
         return ('error', cls, code)
     if t == 6:
         return ('reject', r["reason"])
@@ -269,12 +269,28 @@ def exchange(w, lan, dev, client, req):
     return ('other', t)
 
 
+def _name(table, v):
+    for k, name in table.items():
+        if v == k:
+            return name
+    return v
+
+
 def show(out):
+    """an outcome for signatures / notes (no text formatting of possibly symbolic numbers)"""
     if out[0] == 'error':
-        return "error %s/%s" % (R.ERROR_CLASS_NAME.get(out[1], out[1]), R.ERROR_CODE_NAME.get(out[2], out[2]))
+        return ['error', _name(R.ERROR_CLASS_NAME, out[1]), _name(R.ERROR_CODE_NAME, out[2])]
     if out[0] == 'complex-ack':
-        return "complex-ack"
-    return " ".join(str(x) for x in out)
+        return ['complex-ack', out[1]]
+    return list(out)
+
+
+def brief(out):
+    return list(out[:3]) if out[0] != 'complex-ack' else ['complex-ack']
+
+
+def show_exp(exp):
+    return [R.ERROR_CLASS_NAME[exp[1]]] + [R.ERROR_CODE_NAME[c] for c in exp[2]]
 
 
 def matches_error(out, exp):
@@ -309,17 +325,17 @@ def check_read(d, out, exp, okey, pname, idx, via):
     otype, inst = OBJ_ID[okey]
     if exp[0] == 'value':
         pid = R.PROP[pname] if isinstance(pname, str) else pname
-        want = bytes(R.read_ack_payload(otype, inst, pid, idx, exp[1]))
+        want = R.read_ack_payload(otype, inst, pid, idx, exp[1])
         if out[0] != 'complex-ack' or out[1] != R.READ_PROPERTY:
             d.flag(True, "read-of-present-property-fails", target=tname(okey, pname), index=idx, got=show(out), via=via)
             return False
-        if bytes(out[2]) != want:
+        if not R.eq_octets(out[2], want):
             d.flag(True, "read-returns-other-value", target=tname(okey, pname), index=idx, got=out[2], want=want, via=via)
             return False
         return True
     if not matches_error(out, exp):
         d.flag(True, "read-error-mismatch", target=tname(okey, pname), index=idx, got=show(out),
-               want="%s/%s" % (R.ERROR_CLASS_NAME[exp[1]], "|".join(R.ERROR_CODE_NAME[c] for c in exp[2])), via=via)
+               want=show_exp(exp), via=via)
         return False
     return True
 
@@ -365,7 +381,7 @@ def expected_rpm(store, specs):
             else:
                 pid = R.PROP[pname] if isinstance(pname, str) else pname
                 res.append((pid, idx, store.read(okey, pname, idx)))
-        out.append((bytes(R.objid_octets(otype, inst)), res))
+        out.append((R.objid_octets(otype, inst), res))
     return out
 
 
@@ -384,7 +400,7 @@ def check_rpm(d, out, store, specs, via, skip=()):
         d.flag(True, "rpm-object-count", got=len(got), want=len(exp), via=via)
         return
     for (goid, gres), (eoid, eres), (okey, refs) in zip(got, exp, specs):
-        if bytes(goid) != eoid:
+        if not R.eq_octets(goid, eoid):
             d.flag(True, "rpm-object-identifier", got=goid, want=eoid, via=via)
             continue
         if len(gres) != len(eres):
@@ -408,18 +424,17 @@ def check_rpm(d, out, store, specs, via, skip=()):
             if e[0] == 'value':
                 if g[2] != 'value':
                     d.flag(True, "rpm-differs-from-read-property", object=okey, property=pid, index=idx,
-                           rpm="error %r" % (g[3],), read_property="value", via=via)
-                elif bytes(g[3]) != bytes(e[1]):
+                           rpm=show(('error', g[3][0], g[3][1])), read_property="value", via=via)
+                elif not R.eq_octets(g[3], e[1]):
                     d.flag(True, "rpm-differs-from-read-property", object=okey, property=pid, index=idx,
-                           rpm=g[3], read_property=bytes(e[1]), via=via)
+                           rpm=g[3], read_property=list(e[1]), via=via)
             else:
                 if g[2] != 'error':
                     d.flag(True, "rpm-differs-from-read-property", object=okey, property=pid, index=idx,
                            rpm="value", read_property="error", via=via)
                 elif not matches_error(('error', g[3][0], g[3][1]), e):
                     d.flag(True, "rpm-embeds-other-error", object=okey, property=pid, index=idx,
-                           rpm="%s/%s" % (R.ERROR_CLASS_NAME.get(g[3][0], g[3][0]), R.ERROR_CODE_NAME.get(g[3][1], g[3][1])),
-                           read_property="%s/%s" % (R.ERROR_CLASS_NAME[e[1]], "|".join(R.ERROR_CODE_NAME[c] for c in e[2])),
+                           rpm=show(('error', g[3][0], g[3][1])), read_property=show_exp(e),
                            via=via)
 
 
@@ -565,7 +580,7 @@ def step_read(d, i, env, focus, level):
     if ch:
         d.flag(True, "read-changed-state", changed=[str(k) for k in ch])
         raise Diverged()
-    d.note(**{'step%d' % i: "read %s[%s] -> %s" % (tname(okey, pname), idx, show(out))})
+    d.note(**{'step%d' % i: ['read', tname(okey, pname), idx, brief(out)]})
 
 
 def step_write(d, i, env, focus, level, kinds, vhi, nwrong, follow):
@@ -585,12 +600,14 @@ def step_write(d, i, env, focus, level, kinds, vhi, nwrong, follow):
     out = exchange(w, lan, dev, client, req)
     after = snapshot(dev)
     causes = store.write_causes(okey, pname, idx, fits, arity_ok)
-    d.note(**{'step%d' % i: "write %s[%s] %s (%s) prio %s -> %s" % (tname(okey, pname), idx, kind, what, prio, show(out))})
-    sig = dict(target=tname(okey, pname), index=idx, value=what, value_kind=kind, got=show(out))
+    d.note(**{'step%d' % i: ['write', tname(okey, pname), idx, kind, what, prio, brief(out)]})
+
+    def mksig():
+        return dict(target=tname(okey, pname), index=idx, value=what, value_kind=kind, got=show(out))
     if causes:
         names = [c[0] for c in causes]
         if out[0] == 'simple-ack':
-            d.flag(True, "refusable-write-acknowledged", causes=names, changed=[str(k) for k in changed_keys(before, after)], **sig)
+            d.flag(True, "refusable-write-acknowledged", causes=names, changed=[str(k) for k in changed_keys(before, after)], **mksig())
             raise Diverged()
         ok = False
         for cname, exp in causes:
@@ -601,20 +618,20 @@ def step_write(d, i, env, focus, level, kinds, vhi, nwrong, follow):
                 ok = True
         if not ok:
             if out[0] in ('error', 'reject', 'abort'):
-                d.flag(True, "write-refused-with-other-error", causes=names, **sig)
+                d.flag(True, "write-refused-with-other-error", causes=names, **mksig())
             else:
-                d.flag(True, "write-not-answered", causes=names, **sig)
+                d.flag(True, "write-not-answered", causes=names, **mksig())
         ch = changed_keys(before, after)
         if ch:
-            d.flag(True, "refused-write-changed-state", causes=names, changed=[str(k) for k in ch], **sig)
+            d.flag(True, "refused-write-changed-state", causes=names, changed=[str(k) for k in ch], **mksig())
             raise Diverged()
         return
     # nothing speaks against the write: it is acknowledged and takes effect
     if out[0] != 'simple-ack' or out[1] != R.WRITE_PROPERTY:
-        d.flag(True, "valid-write-refused", **sig)
+        d.flag(True, "valid-write-refused", **mksig())
         ch = changed_keys(before, after)
         if ch:
-            d.flag(True, "refused-write-changed-state", causes=[], changed=[str(k) for k in ch], **sig)
+            d.flag(True, "refused-write-changed-state", causes=[], changed=[str(k) for k in ch], **mksig())
             raise Diverged()
         return
     if icls == 'zero':
@@ -622,7 +639,7 @@ def step_write(d, i, env, focus, level, kinds, vhi, nwrong, follow):
         cur = lib_content(spec, objs[okey].ReadProperty(pname))
         old = store.objs[okey].values[pname]
         if cur is None or len(cur) != content:
-            d.flag(True, "array-length-write-not-applied", want=content, got=None if cur is None else len(cur), **sig)
+            d.flag(True, "array-length-write-not-applied", want=content, got=None if cur is None else len(cur), **mksig())
             raise Diverged()
         store.objs[okey].values[pname] = list(old[:content]) + list(cur[len(old):])
     else:
@@ -630,11 +647,11 @@ def step_write(d, i, env, focus, level, kinds, vhi, nwrong, follow):
     oid = objs[okey].objectIdentifier
     ch = changed_keys(before, after, ignore=((oid, pname),))
     if ch:
-        d.flag(True, "write-changed-other-properties", changed=[str(k) for k in ch], **sig)
+        d.flag(True, "write-changed-other-properties", changed=[str(k) for k in ch], **mksig())
         raise Diverged()
     diff = store_differs(store, objs)
     if diff:
-        d.flag(True, "acknowledged-write-not-stored", differs=diff, **sig)
+        d.flag(True, "acknowledged-write-not-stored", differs=diff, **mksig())
         raise Diverged()
     # read back over the wire: the same property (and element), and through ReadPropertyMultiple
     bad = ()
@@ -679,7 +696,7 @@ def step_rpm(d, i, env, focus, level, nrefs):
     if ch:
         d.flag(True, "read-changed-state", changed=[str(k) for k in ch])
         raise Diverged()
-    d.note(**{'step%d' % i: "rpm %s -> %s" % (specs, show(out))})
+    d.note(**{'step%d' % i: ['rpm', specs, brief(out)]})
 
 
 @meta(bounds="a device stack (ReadProperty/WriteProperty, ReadPropertyMultiple services) holding three vendor objects: "
@@ -725,5 +742,6 @@ def instances(tier):
     q = tier == "quick"
     out = []
     for focus in ('S', 'A', 'L'):
-        out.append(Inst(rw_wire, dict(focus=focus, ops=['R'], level=2), budget=60))
+        out.append(Inst(rw_wire, dict(focus=focus, ops=['W'], level=1, kinds=['right', 'wrong']), budget=300))
+        out.append(Inst(rw_wire, dict(focus=focus, ops=['M'], level=1, nrefs=1), budget=300))
     return out
